@@ -145,23 +145,50 @@ class Slots:
 
 
 class MemGate:
+    """Memory budget shared by every check.py process on the machine (a flock'ed
+    counter file), so that concurrent runs do not push CBMC into the OOM killer."""
+
     def __init__(self, total):
         self.total = total
-        self.used = 0
-        self.cv = threading.Condition()
+        self.path = os.path.join(VERIF, ".work", "memgate")
+
+    def _update(self, delta):
+        import fcntl
+        os.makedirs(os.path.dirname(self.path), exist_ok=True)
+        with open(self.path, "a+") as f:
+            fcntl.flock(f, fcntl.LOCK_EX)
+            f.seek(0)
+            txt = f.read().strip()
+            try:
+                entries = json.loads(txt) if txt else {}
+            except ValueError:
+                entries = {}
+            # drop entries of dead processes
+            entries = {p: v for p, v in entries.items() if os.path.exists("/proc/%s" % p)}
+            me = str(os.getpid())
+            used = sum(entries.values())
+            if delta > 0 and used + delta > self.total and used > 0:
+                ok = False
+            else:
+                entries[me] = entries.get(me, 0) + delta
+                if entries[me] <= 0:
+                    entries.pop(me)
+                ok = True
+            f.seek(0)
+            f.truncate()
+            f.write(json.dumps(entries))
+            f.flush()
+            fcntl.flock(f, fcntl.LOCK_UN)
+        return ok
 
     def acquire(self, gb):
         gb = min(gb, self.total)
-        with self.cv:
-            while self.used + gb > self.total:
-                self.cv.wait()
-            self.used += gb
+        while not self._update(gb):
+            time.sleep(1.0)
 
     def release(self, gb):
         gb = min(gb, self.total)
-        with self.cv:
-            self.used -= gb
-            self.cv.notify_all()
+        self._update(-gb)
 
 
 CHECK_RE = re.compile(r"^Check (\d+): (.+)\n\t - Status: (\w+)\n\t - Description: \"(.*)\"\n\t - Location: (.*)$", re.M)
@@ -199,7 +226,7 @@ def parse_log(text):
     }
 
 
-def kani_cmd(h, target_dir, playback=False):
+def kani_cmd(h, target_dir, playback=False, only_props=None):
     cmd = ["cargo", "kani", "--harness", "proofs::%s::%s" % (h["file"][:-3], h["name"]), "--exact", "--target-dir", target_dir]
     if os.environ.get("VERIF_VERBOSE"):
         cmd.append("--verbose")  # CBMC statistics (symex/solver split, variables/clauses); about 2x slower
@@ -216,6 +243,12 @@ def kani_cmd(h, target_dir, playback=False):
         cmd += ["--no-memory-safety-checks"]
     for a in h.get("kani_args", []):
         cmd.append(a)
+    if only_props:
+        # playback: ask CBMC for a trace of the failing checks only (one SAT query each instead of
+        # the whole property set; the all-properties playback run can be orders of magnitude slower)
+        cmd.append("--cbmc-args")
+        for p in only_props:
+            cmd += ["--property", p]
     return cmd
 
 
@@ -240,10 +273,10 @@ def limits(mem_gb, big_stack):
     return f
 
 
-def run_harness(h, ctx, playback=False):
+def run_harness(h, ctx, playback=False, only_props=None):
     """Run one Kani harness; returns a result dict (possibly from cache). The first run
     is without concrete playback (4x cheaper); a failing harness is re-run with it."""
-    key = hashlib.sha256(json.dumps([h, ctx["repo_hash"], ctx["harness_hash"], ctx["cfgs"], playback], sort_keys=True).encode()).hexdigest()[:32]
+    key = hashlib.sha256(json.dumps([h, ctx["repo_hash"], ctx["harness_hash"], ctx["cfgs"], playback, only_props], sort_keys=True).encode()).hexdigest()[:32]
     cpath = os.path.join(CACHE, key + ".json")
     if ctx["use_cache"] and os.path.exists(cpath):
         with open(cpath) as f:
@@ -257,8 +290,10 @@ def run_harness(h, ctx, playback=False):
     try:
         tdir = os.path.join(WORK, "slot%s-%d" % (ALT, slot))
         logp = os.path.join(LOGS, "%s%s.log" % (h["name"], ".playback" if playback else ""))
-        cmd = kani_cmd(h, tdir, playback=playback)
-        timeout = h.get("timeout_s", 600) * (4 if playback else 1)
+        cmd = kani_cmd(h, tdir, playback=playback, only_props=only_props)
+        # witness extraction is capped: CBMC's trace mode is occasionally pathological (a 4 s proof
+        # whose trace run does not finish in 30 min); then the outcome is inconclusive, never a VIOLATION
+        timeout = min(h.get("timeout_s", 600) * 2, 1500) if playback else h.get("timeout_s", 600)
         status = "done"
         with open(logp, "w") as lf:
             p = subprocess.Popen(cmd, cwd=HARNESS, env=ctx["env"], stdout=lf, stderr=subprocess.STDOUT, preexec_fn=limits(mem * 3 if playback else mem, h.get("big_stack", False)))  # kani-driver needs room to parse the CBMC trace
@@ -466,8 +501,11 @@ def main():
         state, det = classify(h, r, prop)
         entry = {"harness": h["name"], "state": state}
         if state == "fail":
-            rp = run_harness(h, ctx, playback=True)
+            rp = run_harness(h, ctx, playback=True, only_props=sorted({c["name"] for c in det})[:4])
             tests = extract_playback(rp, det)
+            if not tests:
+                rp = run_harness(h, ctx, playback=True)  # fall back to the all-properties playback run
+                tests = extract_playback(rp, det)
             descs = sorted({c["desc"] for c in det})
             if not tests:
                 state = "inconclusive"
